@@ -12,7 +12,7 @@ PROPS["C20"] = {
 
 _PMS_REPL = ["label_from_string", "atoi", "my_strdup"]
 for _mm, _tier in ((2, "quick"), (3, "thorough")):
-    U("c20_process_metadata_stack_%d" % _mm, ["C20"], "h_pms", ["C20/meta.c"], ["stack.c"], enforce="process_metadata_stack",
+    U("c20_process_metadata_stack_%d" % _mm, (["C20", "C05"] if _mm == 2 else ["C20"]), "h_pms", ["C20/meta.c"], ["stack.c"], enforce="process_metadata_stack",
       replace=_PMS_REPL, lib=(), native=None,
       kind="bounded", tier=_tier, timeout=150, defines=["-DMETA_MAX=%d" % _mm], bounds={"metadata records<=": _mm, "key table": 12, "unwind": 19},
       cbmc_flags=["--unwind", "19", "--unwindset", "process_metadata_stack_wrapped_for_contract_checking.0:%d" % (_mm + 1), "--unwinding-assertions", "--object-bits", "10"],
